@@ -9,6 +9,10 @@ Parts
   gram    Hypothesis grammar strings mixing allowed and disallowed constructs (pf and ps).
   arith   Hypothesis arithmetic expressions over the listed operators / functions, evaluated through
           parse_function on scalars and arrays and compared with vlib.exprsafe.evaluate.
+  hist    Hypothesis histories: sequences of parse / caller edits the dependency list it was given / call a
+          function returned earlier / build and run a generated model whose parameter functions are among the
+          strings (1 case in 200); every parse, whatever came before in the process, must report exactly the
+          free names and the reference values ('history/<bucket>' when it only fails after something else happened).
   atheris (thorough tier only) byte-level fuzzing campaigns run as subprocesses (tools/fuzz_c19.py).
 
 Oracle: vlib.exprsafe (independent of atomica). validator forbids and the parser returns ->
@@ -35,11 +39,13 @@ ID = "C19"
 EXHAUSTIVE = True  # the 'struct' part: all node classes x all allowed contexts up to the stated depth
 RULE = (
     "cases = strings; struct: (node class fragment, chain of 0..2 allowed contexts [0..3 thorough]) enumerated exhaustively for parse_function and evaluate_plot_string; "
-    "gram: grammar strings with injected disallowed constructs; arith: whitelisted arithmetic with scalar/array operands incl. zeros. "
+    "gram: grammar strings with injected disallowed constructs; arith: whitelisted arithmetic with scalar/array operands incl. zeros; hist: op sequences (parse, mutate returned list, call, model build) over 1..n strings. "
     "non-trivial = (struct/gram) the validator's first disallowed node sits at depth >= 2, i.e. below an allowed node; (arith) the string contains a division and at "
-    "least one operand is an array and at least one element is defined; distinct = distinct case hash"
+    "least one operand is an array and at least one element is defined; (hist) a string is parsed again after a caller edited a returned dependency list or a model using it was built; distinct = distinct case hash"
 )
 ASSUMPTIONS = [
+    "hist: the objects parse_function returns belong to the caller (docstring: 'a list of arguments required by the function'); a caller may edit its list; model builds go through vlib.simcase.run_spec on "
+    "generated ModelSpecs (a spec atomica cannot build or run is discarded: C18's business); shard processes are long-lived, so state left behind by one case can also surface in a later case of the same shard",
     "the allowed language is the one written down in vlib/exprsafe.py (numbers, names, flow selectors, pi, + - * / ** unary -/+, < <= > >= == !=, positional calls of the 17 listed functions); "
     "// % @ is/in, complex/bool constants, wrong arity, listed function used as a value, strings >= 1800 characters, nesting deeper than 150 levels and strings whose ':' can be read both as a "
     "selector and as Python syntax (lambda:x) are 'unspecified': no assertion either way, never evaluated",
@@ -51,7 +57,7 @@ ASSUMPTIONS = [
     "evaluate_plot_string: strings with '{' or '[' must be list/dict displays of string constants (its docstring / assertion message); other strings are returned verbatim; "
     "the module-level name eval seen by atomica.utils is replaced by a recorder while the harness calls it",
 ]
-BUDGET = {"quick": 96000, "thorough": 4800000}
+BUDGET = {"quick": 88000, "thorough": 4400000}
 if os.environ.get("C19_BUDGET_SCALE"):  # smoke-testing the thorough plumbing with a fraction of the budget
     BUDGET = {k: max(16, int(v * float(os.environ["C19_BUDGET_SCALE"]))) for k, v in BUDGET.items()}
 TIME_CAP = {"quick": 35, "thorough": 1100}
@@ -498,8 +504,131 @@ def arith_cases():
     return st.tuples(_INTS, st.lists(value, min_size=5, max_size=5)).map(_arith_case)
 
 
+# ---------------------------------------------------------------------------- Hypothesis: histories (state carried from one call to the next)
+
+MUTATIONS = ["clear", "pop-first", "pop-last", "append", "reverse", "sort", "drop-even", "drop-t-dt", "rename-first"]
+SHARE_FMT = ["(%s) + qy", "2*(%s)", "max(%s, 0)", "(%s)/dt", "(%s) - t", "-(%s)", "(%s)", "%s + 0"]
+HIST_MODEL_PROFILE = {
+    "p_function": 1.0,
+    "max_pops": 2,
+    "max_steps": 6,
+    "min_steps": 2,
+    "max_ord": 3,
+    "max_junction_motifs": 1,
+    "max_timed_motifs": 0,
+    "p_transfer": 0.2,
+    "p_output_pars": 0.8,
+    "p_interaction": 0.2,
+    "p_time_varying": 0.1,
+    "extreme": 0.0,
+}
+
+
+def _hist_ops(ch, nstrings, with_build):
+    """a sequence of operations on the strings of the case; every history ends by parsing every string once more (added by the check)"""
+    ops = [["parse", ch.below(nstrings)]] if ch.below(4) else []
+    nslots = len(ops)
+    built = False
+    for _ in range(2 + ch.below(6)):
+        r = ch.below(9)
+        if with_build and (r == 8 or (not built and r >= 6)):
+            ops.append(["build"])
+            built = True
+        elif r < 3 or nslots == 0:
+            ops.append(["parse", ch.below(nstrings)])
+            nslots += 1
+        elif r < 6:
+            ops.append(["mutate", ch.below(nslots), ch.pick(MUTATIONS)])
+        else:
+            ops.append(["call", ch.below(nslots)])
+    if with_build and not built:
+        ops.insert(ch.below(len(ops) + 1), ["build"])
+    return ops
+
+
+def _subexpressions(src, ch, limit):
+    """source text of some proper sub-expressions of an allowed string (selector spelling restored)"""
+    v = X.validate_function(src)
+    if v.status != "allowed" or v.py_src is None:
+        return []
+    nodes = [n for n in ast.walk(v.tree.body) if n is not v.tree.body and isinstance(n, (ast.BinOp, ast.Call, ast.UnaryOp, ast.Compare, ast.Name))]
+    out = []
+    for _ in range(min(limit, len(nodes))):
+        seg = ast.get_source_segment(v.py_src, ch.pick(nodes))
+        if seg:
+            out.append(seg.replace("___", ":"))
+    return out
+
+
+def _hist_plain_case(ints):
+    ch = _Chooser(ints)
+    base = [_build_num(ch, 1 + ch.below(3)) for _ in range(1 + ch.below(2))]
+    strings = list(base)
+    for b in base:
+        if ch.below(2):
+            strings.append(ch.pick(SHARE_FMT) % b)
+        strings.extend(_subexpressions(b, ch, ch.below(2)))
+    if ch.below(3) == 0:
+        strings.append(ch.pick(["t", "dt", "t + dt", "qx", "sin(2*pi*(t-2000))", "min(1, qx*dt)/dt"]))
+    strings = sorted(set(strings), key=strings.index)
+    return {"kind": "hist", "strings": strings, "ops": _hist_ops(ch, len(strings), False)}
+
+
+def _hist_model_case(drawn):
+    spec, ints = drawn
+    ch = _Chooser(ints)
+    fns = [p["fn"] for p in spec["pars"] if p.get("fn")]
+    fns = sorted(set(fns), key=fns.index)
+    strings = list(fns)
+    for f in fns[:6]:
+        if ch.below(2):
+            strings.append(ch.pick(SHARE_FMT) % f)
+        strings.extend(_subexpressions(f, ch, ch.below(3)))
+    if len(fns) >= 2 and ch.below(2):
+        strings.append("(%s) + (%s)" % (ch.pick(fns), ch.pick(fns)))
+    strings = [x for x in sorted(set(strings), key=strings.index) if len(x) < 1500] or ["t"]
+    return {"kind": "hist", "strings": strings, "ops": _hist_ops(ch, len(strings), True), "spec": spec}
+
+
+def hist_plain():
+    return _INTS.map(_hist_plain_case)
+
+
+def hist_model():
+    from vlib import gen_model
+
+    return st.tuples(gen_model.model_specs(HIST_MODEL_PROFILE), _INTS).map(_hist_model_case)
+
+
+_FLOATS5 = st.lists(value, min_size=5, max_size=5)
+_MODEL_SPECS = {}
+
+
+@st.composite
+def mixed_cases(draw):
+    """the part of the case space is selected by the last two drawn bytes (st.one_of does not weight its branches evenly):
+    per 240: 1 model history (builds and runs a generated model, ~0.1 s), 20 parse/mutate/call histories, 73 grammar strings for
+    parse_function, 36 plot strings, 110 arithmetic cases"""
+    ints = draw(_INTS)
+    floats = draw(_FLOATS5)  # drawn for every case: branches that draw different amounts are not selected evenly by Hypothesis
+    sel = (ints[-1] * 256 + ints[-2]) % 240
+    if sel == 0:
+        if "s" not in _MODEL_SPECS:
+            from vlib import gen_model
+
+            _MODEL_SPECS["s"] = gen_model.model_specs(HIST_MODEL_PROFILE)
+        return _hist_model_case((draw(_MODEL_SPECS["s"]), ints))
+    if sel <= 20:
+        return _hist_plain_case(ints)
+    if sel <= 93:
+        return _gram_pf_case(ints)
+    if sel <= 129:
+        return _gram_ps_case(ints)
+    return _arith_case((ints, floats))
+
+
 def strategy(tier):
-    return st.one_of(gram_pf(), gram_pf(), gram_ps(), arith_cases(), arith_cases(), arith_cases())
+    return mixed_cases()
 
 
 # ---------------------------------------------------------------------------- oracles
@@ -516,8 +645,9 @@ def _short(src, n=300):
     return src if len(src) <= n else src[:n] + "...(%d chars)" % len(src)
 
 
-def check_pf_string(src):
-    """accept / reject / dependency oracle for parse_function. Returns (verdict, fcn or None, labels). Never calls fcn."""
+def check_pf_string(src, keep=None):
+    """accept / reject / dependency oracle for parse_function. Returns (verdict, fcn or None, labels). Never calls fcn.
+    keep: optional dict that receives the raw return value under "res" (the history checks hold on to the returned objects)."""
     fp, _ = _atomica()
     v = X.validate_function(src)
     try:
@@ -525,6 +655,8 @@ def check_pf_string(src):
         accepted, exc = True, None
     except Exception as e:  # noqa - any exception is a rejection
         accepted, exc, res = False, e, None
+    if keep is not None:
+        keep["res"] = res
     labels = ["pf:%s" % v.status + (":%s" % v.node if v.node else "")]
     if v.status == "forbidden":
         labels.append("pf:forbidden-depth:%d" % min(v.depth, 5))
@@ -740,6 +872,101 @@ def _show(args):
     return {k: (v.tolist() if isinstance(v, np.ndarray) else v) for k, v in args.items()}
 
 
+def _mutate(deps, how):
+    """what a caller may do with the list it was handed"""
+    if not isinstance(deps, list):
+        return
+    if how == "clear":
+        del deps[:]
+    elif how == "pop-first" and deps:
+        deps.pop(0)
+    elif how == "pop-last" and deps:
+        deps.pop()
+    elif how == "append":
+        deps.append("zz_not_a_dependency")
+    elif how == "reverse":
+        deps.reverse()
+    elif how == "sort":
+        deps.sort()
+    elif how == "drop-even":
+        del deps[::2]
+    elif how == "drop-t-dt":
+        for special in ("t", "dt"):
+            while special in deps:
+                deps.remove(special)
+    elif how == "rename-first" and deps:
+        deps[0] = "zz_" + str(deps[0])
+
+
+def _check_hist(case):
+    """histories: whatever happened before in the process (other parses, callers editing the list they were given, calling the
+    returned functions, model builds that parse the same strings), every parse reports exactly the free names and the right values"""
+    strings, ops = case["strings"], case["ops"]
+    labels = ["kind:hist:" + ("model" if case.get("spec") else "plain")]
+    slots = []  # (string index, verdict, fcn, deps list) of every parse so far
+    parsed_before, disturbed, done = set(), False, []
+    reparsed_after_disturbance = False
+    model_fns = set(p["fn"] for p in case["spec"]["pars"] if p.get("fn")) if case.get("spec") else set()
+
+    def parse(i, final=False):
+        nonlocal reparsed_after_disturbance
+        src = strings[i]
+        keep = {}
+        history = disturbed or i in parsed_before
+        try:
+            v, fcn, labs = check_pf_string(src, keep)
+            if v.status == "allowed" and fcn is not None:
+                _evaluate_fixed_env(src, v, fcn)
+        except Violation as e:
+            if not history:
+                raise
+            raise Violation(ID, "history/" + e.bucket, "after %s: %s" % (json.dumps(done), e.detail))
+        if history and disturbed and i in parsed_before:
+            reparsed_after_disturbance = True
+        parsed_before.add(i)
+        res = keep.get("res")
+        deps = res[1] if isinstance(res, tuple) and len(res) == 2 else None
+        if not final:
+            slots.append((i, v, fcn, deps))
+
+    for op in ops:
+        if op[0] == "parse":
+            parse(op[1] % len(strings))
+        elif op[0] == "mutate" and slots:
+            i, v, fcn, deps = slots[op[1] % len(slots)]
+            if v.status == "allowed":
+                _mutate(deps, op[2])
+                disturbed = True
+                labels.append("hist:mutate:" + op[2])
+        elif op[0] == "call" and slots:
+            i, v, fcn, deps = slots[op[1] % len(slots)]
+            if v.status == "allowed" and fcn is not None:
+                try:
+                    _evaluate_fixed_env(strings[i], v, fcn)
+                except Violation as e:
+                    raise Violation(ID, "history/" + e.bucket, "function returned earlier for %r, called after %s: %s" % (_short(strings[i]), json.dumps(done), e.detail))
+                labels.append("hist:call")
+        elif op[0] == "build":
+            if not case.get("spec"):
+                raise HarnessError("C19 history with a build step but no model spec")
+            from vlib import simcase
+
+            try:
+                simcase.run_spec(case["spec"], check_domain=False)
+            except Discard as d:
+                raise Discard("hist: model could not be built/run: " + d.reason[:80])
+            disturbed = True
+            parsed_before.update(i for i, x in enumerate(strings) if x in model_fns)  # the build parsed them
+            labels.append("hist:build")
+        done.append(op)
+    done.append(["parse-all"])
+    for i in range(len(strings)):
+        parse(i, final=True)
+    if any(("t" in X.validate_function(x).names or "dt" in X.validate_function(x).names) for x in strings):
+        labels.append("hist:uses-t-or-dt")
+    return {"nontrivial": reparsed_after_disturbance, "labels": labels}
+
+
 def _check_arith(case):
     src, env = case["src"], case["env"]
     v, fcn, labels = check_pf_string(src)
@@ -870,6 +1097,8 @@ def check(case):
         return _check_string_case(case)
     if kind == "arith":
         return _check_arith(case)
+    if kind == "hist":
+        return _check_hist(case)
     if kind == "atheris":
         return _check_atheris(case)
     raise HarnessError("unknown C19 case kind %r" % kind)
